@@ -167,6 +167,23 @@ class Prop(BaseProp):
             page = os.path.join(out, where, "faulty.rst")
             res.see("faulty_file_location_in_directory_runs", where or "top")
             res.count("directory_mode_runs")
+        elif mode == "later-input":
+            # several inputs in one invocation: a valid file of the SAME NAME (in another directory) was documented first,
+            # then the faulty one; a clean third input follows
+            d1, d2 = os.path.join(sb, "first"), os.path.join(sb, "second")
+            for d_ in (d1, d2):
+                shutil.rmtree(d_, ignore_errors=True)
+                os.makedirs(d_)
+            with open(os.path.join(d1, name), "w") as f:
+                f.write("function(valid_twin)\nendfunction()\n")
+            with open(os.path.join(d1, "after.cmake"), "w") as f:
+                f.write("function(after)\nendfunction()\n")
+            src = os.path.join(d2, name)
+            with open(src, "wb") as f:
+                f.write(text if isinstance(text, bytes) else text.encode("utf-8"))
+            o = self.call([os.path.join(d1, name), src, os.path.join(d1, "after.cmake"), "-o", out], sb, home, True)
+            res.count("later_input_mode_runs")
+            page = None       # the page of the valid twin legitimately exists under the same name
         elif mode == "rerun":
             # history: a valid revision was documented into the same output directory before; the faulty revision is not
             # newer than the page written then (cp -p, restored backup)
@@ -285,6 +302,8 @@ class Prop(BaseProp):
                     self.attempt(res, sb, mt, kbase, reason, wx, idx, "stdout", via_main=vm)
                 if n % 5 == 2:
                     self.attempt(res, sb, mt, kbase, reason, wx, idx, "rerun", via_main=vm)
+                if n % 5 == 3:
+                    self.attempt(res, sb, mt, kbase, reason, wx, idx, "later-input", via_main=True)
                 if reason in PARSE_TIME and (n + idx) % 40 == 0:
                     src = os.path.join(sb, "x.cmake")
                     with open(src, "w", encoding="utf-8", newline="") as f:
@@ -294,16 +313,46 @@ class Prop(BaseProp):
                     if ok:
                         res.count("reference_disagreements")
                         res.see("reference_disagreement_samples", f"{kind}@{p}: {reason}: " + mt[max(0, p - 30):p + 30])
-                if (n + idx) % 97 == 0:
+                # CLI sample: every 37th mutant, and every 9th of the stray-text kinds (what is detected late, after the parser
+                # has recovered, is where a weakened check shows)
+                if (n + idx) % 37 == 0 or (kbase in ("bare-word", "stray-quoted", "stray-bracket") and (n + idx) % 9 == 0):
                     src = os.path.join(sb, "cli.cmake")
                     with open(src, "w", encoding="utf-8", newline="") as f:
                         f.write(mt)
                     entry = "main.py" if (n + idx) % 2 else "console"
-                    rc, so, se = runner.run_cli([src, "-o", os.path.join(sb, "cliout")], cwd=sb, home=os.path.join(sb, "home"), entry=entry)
+                    # (every third of these runs with the interpreter's optimisation switched on, as `python -O` does:
+                    #  checks written as assert statements are gone then)
+                    popt = {"PYTHONOPTIMIZE": "1"} if (n + idx) % 3 == 0 or (n + idx) % 9 == 0 else {}
+                    res.see("cli_interpreter_modes", "optimised (-O)" if popt else "default")
+                    rc, so, se = runner.run_cli([src, "-o", os.path.join(sb, "cliout")], cwd=sb, home=os.path.join(sb, "home"), entry=entry,
+                                                env_extra=popt)
                     res.count("cli_runs")
                     res.see("cli_entry_points", entry)
                     if rc == 0:
                         res.violate(f"cli-exit-zero-on-invalid-input:{reason}:{kbase}", se[-200:], dict(wx, text=mt))
+            # optimised interpreter (python -O / PYTHONOPTIMIZE=1): stray text right in front of a doccomment, a comment or the
+            # end of the file -- where the parser can recover and only a later check stands between the fault and a page
+            strays = []
+            for p_, kind_, mt_ in muts:
+                if isinstance(mt_, str) and kind_ in ("bare-word", "stray-quoted", "stray-bracket"):
+                    after = mt_[p_:].split("\n", 1)[1] if "\n" in mt_[p_:] else ""
+                    if after.lstrip(" \t\r\n").startswith("#") or after.strip() == "":
+                        mr_ = cmake_lexer.lex(mt_)
+                        if not mr_.valid and not mr_.legacy:
+                            strays.append((p_, kind_, mt_))
+            for p_, kind_, mt_ in strays[:: max(1, len(strays) // 3)][:3]:
+                src = os.path.join(sb, "opt.cmake")
+                with open(src, "w", encoding="utf-8", newline="") as f:
+                    f.write(mt_)
+                import shutil as _sh
+                _sh.rmtree(os.path.join(sb, "optout"), ignore_errors=True)
+                rc, so, se = runner.run_cli([src, "-o", os.path.join(sb, "optout")], cwd=sb, home=os.path.join(sb, "home"),
+                                            env_extra={"PYTHONOPTIMIZE": "1"})
+                res.count("optimised_interpreter_runs_on_recoverable_faults")
+                if rc == 0 or os.path.exists(os.path.join(sb, "optout", "opt.rst")):
+                    res.violate(f"optimised-interpreter-accepts-invalid-input:{kind_}", f"exit {rc}; page written: "
+                                f"{os.path.exists(os.path.join(sb, 'optout', 'opt.rst'))}",
+                                {"fault": kind_, "position": p_, "text": mt_, "env": "PYTHONOPTIMIZE=1"})
         res.sig = sig_hash(sorted(sigs) + [idx])
         res.nontrivial = bool(sigs)
         if idx % 37 == 0 and muts:
